@@ -338,6 +338,13 @@ func legacyText(r *ev.Run, c *ev.Case) {
 		// an argument list that kept its quotes: as a whole a JSON string literal, and still a legacy line
 		text = `"` + text + `"`
 	}
+	if c.Rand.Intn(10) == 0 {
+		// syntactically a current-format object, but one member has the wrong type, so it is not a current-format
+		// message; a string member holds blank-separated tokens of the older format. Read as a legacy line (the only
+		// reading left) it says what those tokens say, and nothing of what the object's other members say.
+		text = fmt.Sprintf(`{"ifVer":%s,"hardKey":true,"touch2SSH":true,"caPubKeyAlgo":3,"signatureAlgo":4,"username":"x req=%s@%s SSHClientVersion=8.%d y","hostname":"h","sshClientVersion":"9.9","touchlessSudo":{"isFirefighter":true,"hosts":"a,b","time":5}}`,
+			[]string{`"7"`, `[7]`, `7.5`, `{}`, `true`}[c.Rand.Intn(5)], msgref.CleanStr(c.Rand, 5), msgref.CleanStr(c.Rand, 5), c.Rand.Intn(10))
+	}
 	r.Eval(1)
 	var got *message.Attributes
 	var err error
